@@ -19,7 +19,7 @@ Mags == {<<>>, <<1>>, <<127>>, <<128>>, <<255>>, <<1, 0>>, <<127, 255>>, <<128, 
          <<127>> \o Rep(255, 15), <<128>> \o Zeros(15), Rep(255, 16), <<1>> \o Zeros(16), <<1, 2, 3, 4, 5, 6, 7>>, <<200, 1, 2, 3, 4, 5, 6, 7, 8, 9>>}
 Bigs == {[neg |-> s, mag |-> m] : s \in BOOLEAN, m \in Mags} \ {[neg |-> TRUE, mag |-> <<>>]}
 Strs == {B(n, 1) : n \in 0..17}
-Tags == {4325377, 5505025, 1, 16777215}          \* 0x420001, 0x540001, 0x000001, 0xFFFFFF
+Tags == {4325377, 5505025, 1, 16777215, 4325420}          \* 0x420001, 0x540001, 0x000001, 0xFFFFFF, 0x42002C (a registered bit-mask tag)
 
 Leaves(tags) ==
      {[tag |-> g, ty |-> 2, v |-> x] : g \in tags, x \in I4}
